@@ -289,7 +289,7 @@ class Exec:
         if oid in self.obligations:
             return
         ob = Obligation(oid, kind, func, line, text, list(self.pc), goal, tag,
-                        dict(info or {}, trace=list(self.trace)))
+                        dict(info or {}, trace=list(self.trace), injections=[list(x) for x in self.ghost.get('__injections__', [])]))
         ob.site = f'{self.prop}/{short}/{kind}#{ordn}'
         self.obligations[oid] = ob
         self.ob_order.append(oid)
